@@ -89,6 +89,13 @@ def run_rtc(ctx, prop, replay=None):
     variant_used = {}
     for name, args, seed in jobs:
         rc, err, trace = ctx.harness("rtc", args, out_path=os.path.join(ctx.workdir, "%s-%s.trace" % (prop, name)), seed=seed)
+        if rc != 0 and "LIVELOCK" in err:
+            case = err.split("LIVELOCK", 1)[1].split("\n", 1)[1] if "\n" in err.split("LIVELOCK", 1)[1] else ""
+            case = "\n".join(l for l in case.split("\n") if not l.startswith("STAT "))
+            ctx.violation("c19 fails on a real run: the process never becomes quiescent (a task keeps running without making "
+                          "progress, e.g. a serve loop spinning on the same receive error)", "c19 livelock",
+                          "# the rtc harness made no progress for 40 s of real time while running this case; replay: harness/target/debug/rtc run <this file>\n" + case)
+            continue
         if rc != 0:
             ctx.violation("rtc harness crashed: " + err[-300:], "rtc-harness-crash", err[-4000:], name="rtc-crash.txt", no_input=True)
             continue
